@@ -80,7 +80,7 @@ def generate(rng, index, tier):
     if index % 2999 == 37:
         # a busy system: as many distinct threads as a count the source names, each leaving an operation open, while one early
         # thread sits inside an ordinary and a trace-domain window that close at the very end
-        n = worlds.dict_size(rng, 70000) or 5000
+        n = worlds.dict_size(rng, 70000, k=index // 2999) or 5000
         s_, e_ = worlds.domains.draw(rng, 'BSC_read')
         victim = {'tid': 50, 'ops': [{'k': 'sys', 'name': 'BSC_getpid', 's': [0, 0, 0, 0], 'e': [0, 1, 0, 0], 'in': []}] +
                   ([{'k': 'tname', 'text': 'v' * 40, 'prev': False}] if (index // 2999) % 2 == 0 else
@@ -93,7 +93,7 @@ def generate(rng, index, tier):
         # a long-running operation: thousands of same-thread records inside one window, then the thread goes on
         n = worlds.LONG_SIZES[(index // 997) % len(worlds.LONG_SIZES)]
         if (index // 997) % 3 == 2:
-            n = worlds.dict_size(rng, 70000 if tier == 'quick' else 270000) or n      # right at a count the source names
+            n = worlds.dict_size(rng, 70000 if tier == 'quick' else 270000, k=(index // 997) // 3) or n      # right at a count the source names
         ctx = worlds.Ctx(0, 100, [100, 117])
         name = rng.pick(['BSC_read', 'MACH_vmfault', 'DBG_DYLD_TIMING_LAUNCH_EXECUTABLE', 'BSC_open'])
         ops = [worlds.op_long_window(rng, name, n)] + worlds.gen_ops(rng, ctx, 2, {'bsd': 1, 'mach': 1})
